@@ -97,6 +97,52 @@ type Conv struct {
 	Methods  []*Method
 }
 
+// Plan says how one (source, target) position is converted. Plans form a graph:
+// positions converted by generated sub-methods or declared methods are references.
+type Plan struct {
+	Op     string      `json:"op"` // basic | share | ptr | toptr | fromptr | list | map | struct | enum | call | method | ref | under
+	Elem   *Plan       `json:"elem,omitempty"`
+	Key    *Plan       `json:"key,omitempty"`
+	Fields []FieldPlan `json:"fields,omitempty"`
+	Func   string      `json:"func,omitempty"` // call: registry name of the custom function
+	Ref    string      `json:"ref,omitempty"`  // method: declared method name; ref: sub-method signature
+	Enum   *EnumPlan   `json:"enum,omitempty"`
+	Err    bool        `json:"err,omitempty"` // call/method: may fail
+}
+
+// FieldPlan is the plan for one target field of a struct.
+type FieldPlan struct {
+	Target  string   `json:"target"`
+	Skip    bool     `json:"skip,omitempty"`    // left unassigned
+	Whole   bool     `json:"whole,omitempty"`   // source is the whole source struct ('.')
+	Path    []string `json:"path,omitempty"`    // source path (fields, last segment may be callable)
+	PtrWrap bool     `json:"ptrwrap,omitempty"` // the path crossed a pointer: the selected source is a pointer, nil if an intermediate is nil
+	Func    string   `json:"func,omitempty"`    // map ... | FUNC
+	FuncErr bool     `json:"funcErr,omitempty"`
+	FuncSrc bool     `json:"funcSrc,omitempty"` // FUNC takes the selected source
+	PtrArg  bool     `json:"ptrArg,omitempty"`  // FUNC receives the address of the whole source ('.' in pointer method)
+	Conv    *Plan    `json:"conv,omitempty"`
+}
+
+// EnumPlan is the value mapping of an enum conversion.
+type EnumPlan struct {
+	Cases   []EnumCase `json:"cases"`
+	Unknown string     `json:"unknown"` // @error | @panic | @ignore | target literal
+}
+
+// EnumCase maps one source constant value.
+type EnumCase struct {
+	Name   string `json:"name"`
+	Value  string `json:"value"`  // Go literal of the source constant
+	Target string `json:"target"` // @action or Go literal of the target constant
+}
+
+// Result is the outcome of planning one declared method.
+type Result struct {
+	Top  *Plan            `json:"top"`
+	Subs map[string]*Plan `json:"subs,omitempty"`
+}
+
 // Reject is a negative verdict with a class.
 type Reject struct {
 	Class string
@@ -117,6 +163,7 @@ type state struct {
 	ftarget string  // key of the struct type the field settings apply to
 	owner   string  // package owning unnamed struct literals at this position
 	sub     map[string]bool
+	subs    map[string]*Plan
 	seen    map[string]bool // named source types seen inline in the current (sub-)method
 	cursig  [2]string
 	depth   int
@@ -219,73 +266,96 @@ func (st *state) contextsAvailable(need []*spec.T) bool {
 
 // Check decides whether generating the declared method m must succeed.
 func (c *Conv) Check(m *Method) *Reject {
-	st := &state{c: c, root: m, set: m.Settings, fields: m, owner: c.ConvPkg, sub: map[string]bool{}, seen: map[string]bool{}}
+	_, rej := c.Plan(m)
+	return rej
+}
+
+// Plan decides the declared method m and returns how every position is converted.
+func (c *Conv) Plan(m *Method) (*Result, *Reject) {
+	st := &state{c: c, root: m, set: m.Settings, fields: m, owner: c.ConvPkg, sub: map[string]bool{}, subs: map[string]*Plan{}, seen: map[string]bool{}}
 	st.cursig = [2]string{key(m.Source), key(m.Target)}
 	st.ftarget = key(m.Target)
 	if u := st.under(m.Target); u.K == spec.KPtr && st.under(u.Elem).K == spec.KStruct {
 		st.ftarget = key(u.Elem)
 	}
-	if len(m.Fields) > 0 || len(m.AutoMap) > 0 {
+	if m.hasFieldSettings() {
 		u := st.under(m.Target)
 		ok := u.K == spec.KStruct || (u.K == spec.KPtr && st.under(u.Elem).K == spec.KStruct)
 		if !ok {
-			return reject("field-settings-on-non-struct", "%s", key(m.Target))
+			return nil, reject("field-settings-on-non-struct", "%s", key(m.Target))
 		}
 	}
+	res := &Result{Subs: st.subs}
 	if m.Update {
 		tu := st.under(m.Target)
 		if tu.K != spec.KPtr || st.under(tu.Elem).K != spec.KStruct {
-			return reject("update-target", "target must be pointer to struct")
+			return nil, reject("update-target", "target must be pointer to struct")
 		}
 		su := st.under(m.Source)
 		src := m.Source
+		srcPtr := false
 		if su.K != spec.KStruct {
 			if su.K == spec.KPtr && st.under(su.Elem).K == spec.KStruct {
 				src = su.Elem
+				srcPtr = true
 			} else {
-				return reject("update-source", "source must be struct or pointer to struct")
+				return nil, reject("update-source", "source must be struct or pointer to struct")
 			}
 		}
-		return st.structRule(src, tu.Elem)
+		p, rej := st.structRule(src, tu.Elem)
+		if rej != nil {
+			return nil, rej
+		}
+		if srcPtr {
+			p = &Plan{Op: "update-ptr", Elem: p}
+		}
+		res.Top = p
+		return res, nil
 	}
 	if f := st.findExtend(m.Source, m.Target); f != nil {
 		if !st.contextsAvailable(f.Contexts) {
-			return reject("context", "extend %s needs unavailable context", f.Name)
+			return nil, reject("context", "extend %s needs unavailable context", f.Name)
 		}
 		if f.Err && !m.Err {
-			return reject("error-result", "delegate %s returns error", f.Name)
+			return nil, reject("error-result", "delegate %s returns error", f.Name)
 		}
-		return nil
+		res.Top = &Plan{Op: "call", Func: f.Name, Err: f.Err}
+		return res, nil
 	}
-	return st.rules(m.Source, m.Target)
+	p, rej := st.rules(m.Source, m.Target)
+	if rej != nil {
+		return nil, rej
+	}
+	res.Top = p
+	return res, nil
 }
 
 // position decides a nested position (everything below the top of a method).
-func (st *state) position(src, dst *spec.T) *Reject {
+func (st *state) position(src, dst *spec.T) (*Plan, *Reject) {
 	if st.depth > 60 {
-		return nil
+		return nil, reject("too-deep", "model recursion limit")
 	}
 	if f := st.findExtend(src, dst); f != nil {
 		if !st.contextsAvailable(f.Contexts) {
-			return reject("context", "extend %s needs unavailable context", f.Name)
+			return nil, reject("context", "extend %s needs unavailable context", f.Name)
 		}
 		if f.Err && !st.root.Err {
-			return reject("error-result", "extend %s returns error", f.Name)
+			return nil, reject("error-result", "extend %s returns error", f.Name)
 		}
-		return nil
+		return &Plan{Op: "call", Func: f.Name, Err: f.Err}, nil
 	}
 	if m := st.findMethod(src, dst); m != nil {
 		if !st.contextsAvailable(m.Contexts) {
-			return reject("context", "method %s needs unavailable context", m.Name)
+			return nil, reject("context", "method %s needs unavailable context", m.Name)
 		}
 		if m.Err && !st.root.Err {
-			return reject("error-result", "method %s returns error", m.Name)
+			return nil, reject("error-result", "method %s returns error", m.Name)
 		}
-		return nil
+		return &Plan{Op: "method", Ref: m.Name, Err: m.Err}, nil
 	}
 	sig := key(src) + "->" + key(dst)
 	if st.sub[sig] {
-		return nil
+		return &Plan{Op: "ref", Ref: sig}, nil
 	}
 	if st.boundary(src, dst) {
 		st.sub[sig] = true
@@ -296,7 +366,12 @@ func (st *state) position(src, dst *spec.T) *Reject {
 		inner.seen = map[string]bool{}
 		inner.cursig = [2]string{key(src), key(dst)}
 		inner.depth++
-		return inner.rules(src, dst)
+		p, rej := inner.rules(src, dst)
+		if rej != nil {
+			return nil, rej
+		}
+		st.subs[sig] = p
+		return &Plan{Op: "ref", Ref: sig}, nil
 	}
 	st.depth++
 	defer func() { st.depth-- }()
@@ -365,9 +440,9 @@ func (m *Method) hasFieldSettings() bool {
 }
 
 // rules applies the ordered rule list at (src, dst).
-func (st *state) rules(src, dst *spec.T) *Reject {
+func (st *state) rules(src, dst *spec.T) (*Plan, *Reject) {
 	if r := st.overlap(src, dst); r != nil {
-		return r
+		return nil, r
 	}
 	su, du := st.under(src), st.under(dst)
 
@@ -384,7 +459,7 @@ func (st *state) rules(src, dst *spec.T) *Reject {
 		}
 		if srcU || dstU {
 			if st.isEnumPair(src, dst) {
-				return reject("enum-underlying-conflict", "%s -> %s", key(src), key(dst))
+				return nil, reject("enum-underlying-conflict", "%s -> %s", key(src), key(dst))
 			}
 			is, id := src, dst
 			if srcU {
@@ -393,12 +468,16 @@ func (st *state) rules(src, dst *spec.T) *Reject {
 			if dstU {
 				id = du
 			}
-			return st.position(is, id)
+			p, rej := st.position(is, id)
+			if rej != nil {
+				return nil, rej
+			}
+			return &Plan{Op: "under", Elem: p}, nil
 		}
 	}
 	// skipCopySameType
 	if st.set.SkipCopy && key(src) == key(dst) {
-		return nil
+		return &Plan{Op: "share"}, nil
 	}
 	// enum
 	if st.isEnumPair(src, dst) {
@@ -407,37 +486,53 @@ func (st *state) rules(src, dst *spec.T) *Reject {
 	sp, dp := su.K == spec.KPtr, du.K == spec.KPtr
 	switch {
 	case sp && dp:
-		return st.position(su.Elem, du.Elem)
+		p, rej := st.position(su.Elem, du.Elem)
+		return wrap("ptr", p, rej)
 	case sp && !dp:
 		if !st.set.ZeroPtr {
-			return reject("pointer-to-value", "%s -> %s", key(src), key(dst))
+			return nil, reject("pointer-to-value", "%s -> %s", key(src), key(dst))
 		}
-		return st.position(su.Elem, dst)
+		p, rej := st.position(su.Elem, dst)
+		return wrap("fromptr", p, rej)
 	case !sp && dp:
-		return st.position(src, du.Elem)
+		p, rej := st.position(src, du.Elem)
+		return wrap("toptr", p, rej)
 	}
 	if su.K == spec.KBasic && du.K == spec.KBasic {
 		if basicKind(su.Name) == basicKind(du.Name) {
-			return nil
+			return &Plan{Op: "basic"}, nil
 		}
-		return reject("basic-kind", "%s -> %s", su.Name, du.Name)
+		return nil, reject("basic-kind", "%s -> %s", su.Name, du.Name)
 	}
 	if su.K == spec.KStruct && du.K == spec.KStruct {
 		return st.structRule(src, dst)
 	}
 	if (su.K == spec.KSlice || su.K == spec.KArray) && du.K == spec.KSlice {
-		return st.position(su.Elem, du.Elem)
+		p, rej := st.position(su.Elem, du.Elem)
+		return wrap("list", p, rej)
 	}
 	if su.K == spec.KMap && du.K == spec.KMap {
-		if r := st.position(su.Key, du.Key); r != nil {
-			return r
+		kp, rej := st.position(su.Key, du.Key)
+		if rej != nil {
+			return nil, rej
 		}
-		return st.position(su.Elem, du.Elem)
+		vp, rej := st.position(su.Elem, du.Elem)
+		if rej != nil {
+			return nil, rej
+		}
+		return &Plan{Op: "map", Key: kp, Elem: vp}, nil
 	}
-	return reject("no-rule", "%s -> %s", key(src), key(dst))
+	return nil, reject("no-rule", "%s -> %s", key(src), key(dst))
 }
 
-func (st *state) enumRule(src, dst *spec.T) *Reject {
+func wrap(op string, p *Plan, rej *Reject) (*Plan, *Reject) {
+	if rej != nil {
+		return nil, rej
+	}
+	return &Plan{Op: op, Elem: p}, nil
+}
+
+func (st *state) enumRule(src, dst *spec.T) (*Plan, *Reject) {
 	sm := st.c.EnumMembers(src, st.set)
 	dm := st.c.EnumMembers(dst, st.set)
 	dset := map[string]string{}
@@ -450,7 +545,20 @@ func (st *state) enumRule(src, dst *spec.T) *Reject {
 	}
 	used := map[string]bool{}
 	byValue := map[string]string{} // source value -> target (name or action)
-	for _, k := range sm {
+	ep := &EnumPlan{}
+	lit := func(target string) string {
+		if strings.HasPrefix(target, "@") {
+			return target
+		}
+		return dset[target]
+	}
+	sorted := append([]spec.Const{}, sm...)
+	for i := 1; i < len(sorted); i++ {
+		for j := i; j > 0 && sorted[j].Name < sorted[j-1].Name; j-- {
+			sorted[j], sorted[j-1] = sorted[j-1], sorted[j]
+		}
+	}
+	for _, k := range sorted {
 		target, ok := emap[k.Name]
 		if ok {
 			used[k.Name] = true
@@ -459,44 +567,46 @@ func (st *state) enumRule(src, dst *spec.T) *Reject {
 		}
 		if strings.HasPrefix(target, "@") {
 			if target == "@error" && !st.root.Err {
-				return reject("enum-error-action", "no error result")
+				return nil, reject("enum-error-action", "no error result")
 			}
 		} else if _, ok := dset[target]; !ok {
-			return reject("enum-missing-target", "%s has no member %s", key(dst), target)
+			return nil, reject("enum-missing-target", "%s has no member %s", key(dst), target)
 		}
 		if prev, ok := byValue[k.Value]; ok {
 			pv, pa := dset[prev], strings.HasPrefix(prev, "@")
 			tv, ta := dset[target], strings.HasPrefix(target, "@")
 			if (pa || ta) && prev != target {
-				return reject("enum-duplicate-mismatch", "%s", k.Name)
+				return nil, reject("enum-duplicate-mismatch", "%s", k.Name)
 			}
 			if !pa && !ta && pv != tv {
-				return reject("enum-duplicate-mismatch", "%s", k.Name)
+				return nil, reject("enum-duplicate-mismatch", "%s", k.Name)
 			}
 		} else {
 			byValue[k.Value] = target
+			ep.Cases = append(ep.Cases, EnumCase{Name: k.Name, Value: k.Value, Target: lit(target)})
 		}
 	}
 	unknown := st.set.EnumUnknown
 	switch {
 	case unknown == "":
-		return reject("enum-unknown-missing", "enum:unknown not configured")
+		return nil, reject("enum-unknown-missing", "enum:unknown not configured")
 	case unknown == "@error":
 		if !st.root.Err {
-			return reject("enum-error-action", "no error result")
+			return nil, reject("enum-error-action", "no error result")
 		}
 	case strings.HasPrefix(unknown, "@"):
 	default:
 		if _, ok := dset[unknown]; !ok {
-			return reject("enum-missing-target", "unknown key %s", unknown)
+			return nil, reject("enum-missing-target", "unknown key %s", unknown)
 		}
 	}
+	ep.Unknown = lit(unknown)
 	for k := range emap {
 		if !used[k] {
-			return reject("enum-unused-key", "%s", k)
+			return nil, reject("enum-unused-key", "%s", k)
 		}
 	}
-	return nil
+	return &Plan{Op: "enum", Enum: ep}, nil
 }
 
 // ---------------------------------------------------------------------------
@@ -613,7 +723,7 @@ func (st *state) exactMember(t *spec.T, name string) *member {
 	return nil
 }
 
-func (st *state) structRule(src, dst *spec.T) *Reject {
+func (st *state) structRule(src, dst *spec.T) (*Plan, *Reject) {
 	du := st.under(dst)
 	var fm *Method
 	if st.fields != nil && st.ftarget == key(dst) {
@@ -627,15 +737,15 @@ func (st *state) structRule(src, dst *spec.T) *Reject {
 			segs := strings.Split(path, ".")
 			for _, seg := range segs {
 				if st.under(cur).K != spec.KStruct {
-					return reject("automap", "%q: not a struct", seg)
+					return nil, reject("automap", "%q: not a struct", seg)
 				}
 				m := st.exactMember(cur, seg)
 				if m == nil {
-					return reject("automap", "%q does not exist", seg)
+					return nil, reject("automap", "%q does not exist", seg)
 				}
 				cur = m.t
 				if m.call {
-					return reject("automap", "%q is not a struct or struct pointer", seg)
+					return nil, reject("automap", "%q is not a struct or struct pointer", seg)
 				}
 				cu := st.under(cur)
 				switch {
@@ -643,7 +753,7 @@ func (st *state) structRule(src, dst *spec.T) *Reject {
 					cur = st.under(cu.Elem) // the unnamed struct: methods are not searched below
 				case cu.K == spec.KStruct:
 				default:
-					return reject("automap", "%q is not a struct or struct pointer", seg)
+					return nil, reject("automap", "%q is not a struct or struct pointer", seg)
 				}
 			}
 			autos = append(autos, autoSrc{path: segs, t: cur})
@@ -656,6 +766,7 @@ func (st *state) structRule(src, dst *spec.T) *Reject {
 		}
 	}
 	owner := st.fieldOwner(dst)
+	plan := &Plan{Op: "struct"}
 	for _, tf := range du.Fields {
 		name := tf.Name
 		if tf.Embedded {
@@ -670,64 +781,76 @@ func (st *state) structRule(src, dst *spec.T) *Reject {
 			fc = &FieldCfg{}
 		}
 		if fc.Ignore {
+			plan.Fields = append(plan.Fields, FieldPlan{Target: name, Skip: true})
 			continue
 		}
 		if !spec.Exported(name) && st.set.IgnoreUnexported {
+			plan.Fields = append(plan.Fields, FieldPlan{Target: name, Skip: true})
 			continue
 		}
 		if !spec.Exported(name) && owner != st.c.OutPkg {
-			return reject("unexported-target", "field %s", name)
+			return nil, reject("unexported-target", "field %s", name)
 		}
 		if fc.Func != nil && fc.Func.Source == nil {
 			if !st.contextsAvailable(fc.Func.Contexts) {
-				return reject("context", "map func %s", fc.Func.Name)
+				return nil, reject("context", "map func %s", fc.Func.Name)
 			}
 			if fc.Func.Err && !st.root.Err {
-				return reject("error-result", "map func %s returns error", fc.Func.Name)
+				return nil, reject("error-result", "map func %s returns error", fc.Func.Name)
 			}
 			if key(fc.Func.Target) != key(tf.T) {
-				return reject("map-func-target", "%s", fc.Func.Name)
+				return nil, reject("map-func-target", "%s", fc.Func.Name)
 			}
+			plan.Fields = append(plan.Fields, FieldPlan{Target: name, Func: fc.Func.Name, FuncErr: fc.Func.Err})
 			continue
 		}
-		next, skip, rej := st.mapField(fc, name, src, autos, fc.Func != nil)
+		fp, next, skip, rej := st.mapField(fc, name, src, autos, fc.Func != nil)
 		if rej != nil {
-			return rej
+			return nil, rej
 		}
 		if skip {
+			plan.Fields = append(plan.Fields, FieldPlan{Target: name, Skip: true})
 			continue
 		}
 		if fc.Func != nil {
 			if !st.contextsAvailable(fc.Func.Contexts) {
-				return reject("context", "map func %s", fc.Func.Name)
+				return nil, reject("context", "map func %s", fc.Func.Name)
 			}
 			if fc.Func.Err && !st.root.Err {
-				return reject("error-result", "map func %s returns error", fc.Func.Name)
+				return nil, reject("error-result", "map func %s returns error", fc.Func.Name)
 			}
-			if key(fc.Func.Source) != key(next) && !(fc.Source == "." && key(fc.Func.Source) == "*"+key(src)) {
-				return reject("map-func-source", "%s: %s != %s", fc.Func.Name, key(fc.Func.Source), key(next))
+			ptrArg := fc.Source == "." && key(fc.Func.Source) == "*"+key(src) && st.cursig[0] == "*"+key(src)
+			if key(fc.Func.Source) != key(next) && !ptrArg {
+				return nil, reject("map-func-source", "%s: %s != %s", fc.Func.Name, key(fc.Func.Source), key(next))
 			}
 			if key(fc.Func.Target) != key(tf.T) {
-				return reject("map-func-target", "%s", fc.Func.Name)
+				return nil, reject("map-func-target", "%s", fc.Func.Name)
 			}
+			fp.Func, fp.FuncErr, fp.FuncSrc, fp.PtrArg = fc.Func.Name, fc.Func.Err, true, ptrArg
+			plan.Fields = append(plan.Fields, *fp)
 			continue
 		}
 		inner := *st
 		inner.owner = owner
-		if rej := inner.position(next, tf.T); rej != nil {
-			return rej
+		conv, rej := inner.position(next, tf.T)
+		if rej != nil {
+			return nil, rej
 		}
+		fp.Conv = conv
+		plan.Fields = append(plan.Fields, *fp)
 	}
 	for name := range defined {
-		return reject("unknown-target-field", "%s", name)
+		return nil, reject("unknown-target-field", "%s", name)
 	}
-	return nil
+	return plan, nil
 }
 
 // mapField resolves the source for one target field and returns its type.
-func (st *state) mapField(fc *FieldCfg, name string, src *spec.T, autos []autoSrc, forFunc bool) (*spec.T, bool, *Reject) {
+func (st *state) mapField(fc *FieldCfg, name string, src *spec.T, autos []autoSrc, forFunc bool) (*FieldPlan, *spec.T, bool, *Reject) {
+	fp := &FieldPlan{Target: name}
 	if fc.Source == "." {
-		return src, false, nil
+		fp.Whole = true
+		return fp, src, false, nil
 	}
 	var path []string
 	if fc.Source == "" {
@@ -752,11 +875,11 @@ func (st *state) mapField(fc *FieldCfg, name string, src *spec.T, autos []autoSr
 			path = matches[0].path
 		case 0:
 			if st.set.IgnoreMissing && !forFunc {
-				return nil, true, nil
+				return nil, nil, true, nil
 			}
-			return nil, false, reject("missing-source-field", "%s", name)
+			return nil, nil, false, reject("missing-source-field", "%s", name)
 		default:
-			return nil, false, reject("ambiguous-source-field", "%s", name)
+			return nil, nil, false, reject("ambiguous-source-field", "%s", name)
 		}
 	} else {
 		path = strings.Split(fc.Source, ".")
@@ -771,35 +894,34 @@ func (st *state) mapField(fc *FieldCfg, name string, src *spec.T, autos []autoSr
 			cur = cu.Elem
 		}
 		if st.under(cur).K != spec.KStruct {
-			return nil, false, reject("map-path", "cannot access %q", seg)
+			return nil, nil, false, reject("map-path", "cannot access %q", seg)
 		}
 		m := st.exactMember(cur, seg)
 		if m == nil {
-			return nil, false, reject("map-path", "%q does not exist", seg)
+			return nil, nil, false, reject("map-path", "%q does not exist", seg)
 		}
 		if !spec.Exported(m.name) && st.fieldOwner(cur) != st.c.OutPkg {
 			// reading an unexported field from another package cannot compile
-			return nil, false, reject("unexported-source", "field %s", m.name)
+			return nil, nil, false, reject("unexported-source", "field %s", m.name)
 		}
 		last = m
 		cur = m.t
-		if m.call {
-			// callable member: only valid as the last segment
-		}
 	}
 	if last != nil && last.call {
 		if last.params > 0 && len(st.root.Contexts) == 0 {
-			return nil, false, reject("struct-method", "method with parameters")
+			return nil, nil, false, reject("struct-method", "method with parameters")
 		}
 		if last.t == nil {
-			return nil, false, reject("struct-method", "no result")
+			return nil, nil, false, reject("struct-method", "no result")
 		}
 		if last.err && !st.root.Err {
-			return nil, false, reject("error-result", "struct method returns error")
+			return nil, nil, false, reject("error-result", "struct method returns error")
 		}
 	}
 	if crossedPtr && st.under(cur).K != spec.KPtr {
 		cur = spec.Ptr(cur)
+		fp.PtrWrap = true
 	}
-	return cur, false, nil
+	fp.Path = path
+	return fp, cur, false, nil
 }
